@@ -2,7 +2,7 @@
    (the REAL Market::init run natively on a zeroed account under a stubbed Clock).
    Imports Model.v and the hand-written spec only. *)
 From GV Require Import lib.Base gen.C17Tables C17.Model C17.DefaultsSpec.
-From Coq Require Import String.
+From Coq Require Export String.
 Open Scope string_scope.
 Open Scope Z_scope.
 
